@@ -14,6 +14,7 @@ import (
 
 	"verif/harness/core"
 	"verif/harness/gen"
+	"verif/harness/jv"
 	"verif/harness/model"
 )
 
@@ -62,8 +63,12 @@ func resultKey(r *gen.Result) map[string]string {
 
 // evalC12 runs all variants of the case and compares every result with the
 // first one. variants: repeat count, shuffled renderings, relocation.
-func evalC12(cases []*gen.Case, repeats int, useCLI, crossStyle bool) (bool, string, error) {
+func evalC12(cases []*gen.Case, repeats int, useCLI, crossStyle bool, cliRunsOpt ...int) (bool, string, error) {
 	base := cases[0]
+	cliRuns := 2
+	if len(cliRunsOpt) > 0 && cliRunsOpt[0] > 2 {
+		cliRuns = cliRunsOpt[0]
+	}
 	dir, err := os.MkdirTemp("", "verif-c12-")
 	if err != nil {
 		return false, "", err
@@ -125,7 +130,7 @@ func evalC12(cases []*gen.Case, repeats int, useCLI, crossStyle bool) (bool, str
 	}
 	if useCLI && first.OK() {
 		var outs []map[string]string
-		for k := 0; k < 2; k++ {
+		for k := 0; k < cliRuns; k++ {
 			res, err := gen.RunCLI(base, nil, nil, 60*time.Second, false)
 			if err != nil {
 				return false, "", err
@@ -142,8 +147,10 @@ func evalC12(cases []*gen.Case, repeats int, useCLI, crossStyle bool) (bool, str
 			}
 			outs = append(outs, o)
 		}
-		if ok, why := sourcesEqual(outs[0], outs[1]); !ok {
-			return true, "two separate CLI processes give different output: " + why, nil
+		for k := 1; k < len(outs); k++ {
+			if ok, why := sourcesEqual(outs[0], outs[k]); !ok {
+				return true, fmt.Sprintf("separate CLI processes (0 and %d) give different output: %s", k, why), nil
+			}
 		}
 		// the CLI runs with cwd = tree root and relative arguments: compare with the in-process run of the same style
 		if ok, why := sourcesEqual(resultKey(&rel1), outs[0]); !ok {
@@ -160,7 +167,11 @@ func TestC12(t *testing.T) {
 	c.Rule("single- and multi-file cases whose ordering-relevant maps (properties of an object, definitions of a file, mapped ids, enum tables) have 6-12 entries, random options and mappings; variants: 8 repeated in-process runs, the same tree moved to another directory and addressed by relative paths after chdir, 3 renderings with the members of every JSON object shuffled, and (sample) two separate CLI processes; oracle: byte-identical {name -> bytes} maps; non-trivial = case whose largest ordering-relevant map has >= 6 entries; distinct by sha256(files,args)")
 	c.Assume("Go map iteration order is sampled, not enumerated: with n<=8 entries an order leak shows with probability >= 1-(9-n)/8 per pair of runs")
 	eval := func(r *core.Replay) (bool, string, error) {
-		return evalC12(r.Cases, 8, strings.Contains(r.Note, "cli"), strings.Contains(r.Note, "crossstyle"))
+		runs := 2
+		if strings.Contains(r.Note, "cli24") {
+			runs = 24
+		}
+		return evalC12(r.Cases, 8, strings.Contains(r.Note, "cli"), strings.Contains(r.Note, "crossstyle"), runs)
 	}
 	if c.RunReplay(eval) {
 		return
@@ -174,7 +185,8 @@ func TestC12(t *testing.T) {
 	iter := 0
 	res := c.Rapid("determinism", c.N(300, 6000), 0, func(rt *rapid.T) {
 		m := genMulti(rt, c, multiOpts{maxFiles: 3, allowNoID: true, allowDupID: true, bigMaps: true, yamlFiles: true, hostileText: false})
-		switch rapid.IntRange(0, 9).Draw(rt, "scenario") {
+		sc := rapid.IntRange(0, 9).Draw(rt, "scenario")
+		switch sc {
 		case 0, 1:
 			// an extension-less reference that several --resolve-extension values can complete:
 			// which sibling wins must not depend on anything but the order given
@@ -247,6 +259,38 @@ func TestC12(t *testing.T) {
 				c.Count("scenario.chain_single_argument")
 			}
 		}
+		cliRuns := 0
+		switch sc {
+		case 4, 5:
+			// a struct-literal default with a nested list next to an enum table: the bytes of either
+			// must not depend on what the process rendered before
+			main := m.files[0]
+			if main.Root.Kind == model.KObject {
+				enum := &model.Node{Kind: model.KEnum, EnumVals: []jv.V{jv.StrV("red"), jv.StrV("green"), jv.StrV("blue")}}
+				dv := jv.ObjV(jv.Field("mode", jv.StrV("fast")), jv.Field("tags", jv.ArrV(jv.StrV("a"), jv.StrV("b"))), jv.Field("nested", jv.ObjV(jv.Field("k", jv.IntV(1)))))
+				opts := &model.Node{Kind: model.KObject, Props: []model.Prop{
+					{Name: "mode", Node: &model.Node{Kind: model.KString}},
+					{Name: "tags", Node: &model.Node{Kind: model.KArray, Items: &model.Node{Kind: model.KString}}},
+					{Name: "nested", Node: &model.Node{Kind: model.KObject, Additional: &model.Additional{Schema: &model.Node{Kind: model.KInteger}}}},
+				}, Required: []string{"mode", "tags"}, Default: &dv}
+				main.Root.Props = append(main.Root.Props, model.Prop{Name: "aaColor", Node: enum}, model.Prop{Name: "zzOptions", Node: opts}, model.Prop{Name: "zzzColor", Node: model.Clone(enum)})
+				c.Count("scenario.struct_default_next_to_enum")
+			}
+		case 6:
+			// mapping options for namespace ids (prefixes of real ids) next to the exact ones, through
+			// the real CLI many times: which option applies must not depend on the process
+			var extra []gen.Mapping
+			for i, mp := range m.cfg.Mappings {
+				if j := strings.LastIndex(mp.ID, "/"); j > len("https://") {
+					extra = append(extra, gen.Mapping{ID: mp.ID[:j+1], Package: fmt.Sprintf("example.com/ns%d", i), Output: fmt.Sprintf("ns%d/ns.go", i)})
+				}
+			}
+			if len(extra) > 0 {
+				m.cfg.Mappings = append(m.cfg.Mappings, extra...)
+				cliRuns = 24
+				c.Count("scenario.namespace_mappings_cli")
+			}
+		}
 		opt := drawOptions(rt)
 		m.cfg.ExtraImports, m.cfg.OnlyModels, m.cfg.MinSizedInts, m.cfg.StructNameFromTitle = opt.ExtraImports, opt.OnlyModels, opt.MinSizedInts, opt.StructNameFromTitle
 		m.cfg.Tags, m.cfg.Capitalizations = opt.Tags, opt.Capitalizations
@@ -263,13 +307,13 @@ func TestC12(t *testing.T) {
 			f.Spelling.ShuffleKeys = nil
 		}
 		iter++
-		useCLI := iter%cliEvery == 0
+		useCLI := iter%cliEvery == 0 || cliRuns > 0
 		// a file that is both an argument and a $ref target is loaded twice unless both spellings coincide (known finding)
 		crossStyle := m.crossRef == 0 || !c.Avoid("paths.argument_also_ref_target")
 		if !crossStyle {
 			c.ExcludedMap()["paths.argument_also_ref_target"]++
 		}
-		failed, msg, err := evalC12(cases, 8, useCLI, crossStyle)
+		failed, msg, err := evalC12(cases, 8, useCLI, crossStyle, cliRuns)
 		if err != nil {
 			c.Infra(err.Error())
 			return
@@ -298,6 +342,9 @@ func TestC12(t *testing.T) {
 			note := ""
 			if useCLI {
 				note = "cli"
+			}
+			if cliRuns > 2 {
+				note = "cli24"
 			}
 			if crossStyle {
 				note += ",crossstyle"
